@@ -14,10 +14,15 @@
 //! Each node has some fast (but fallible) nodes and a fallback node, with different algorithms to
 //! claim them (see the relevant submodules).
 
+#[cfg(not(arc_swap_verif))]
 use core::sync::atomic::AtomicUsize;
+#[cfg(arc_swap_verif)]
+use crate::verif::atomic::AtomicUsize;
 use core::sync::atomic::Ordering::*;
 
 pub(crate) use self::list::{LocalNode, Node};
+#[cfg(arc_swap_verif)]
+pub(crate) use self::list::verif_hooks;
 use super::RefCnt;
 
 mod fast;
